@@ -28,7 +28,7 @@ var mixedAlgs bool
 
 // "/bar", "/a", "/foo": an EMPTY segment followed by a non-empty one ("/foo//bar" is a valid command, distinct
 // from and unrelated to "/foo/bar")
-var CmdSegs = []string{"foo", "foobar", "fo", "bar", "a", "ab", "é", "λόγος", "λόγοσ", "σ", "ς", "/bar", "/a", "/foo", "θ", "ϑ"}
+var CmdSegs = []string{"foo", "foobar", "fo", "bar", "a", "ab", "é", "λόγος", "λόγοσ", "σ", "ς", "/bar", "/a", "/foo", "θ", "ϑ", "*", "*", "**", "?", "%2a", "..", ".", "~", "+", "{x}", ":id"}
 
 func drawPrin(t *rapid.T, label string) int {
 	if mixedAlgs {
